@@ -11,7 +11,11 @@ import (
 	"sync"
 	"time"
 
+	"github.com/aptpod/iscp-go/encoding"
+	"github.com/aptpod/iscp-go/encoding/protobuf"
 	"github.com/aptpod/iscp-go/iscp"
+	"github.com/aptpod/iscp-go/transport"
+	"github.com/aptpod/iscp-go/wire"
 	"github.com/aptpod/iscp-go/message"
 	"verif.local/harness/broker"
 	"verif.local/harness/lp"
@@ -203,6 +207,183 @@ func pongEcho(h *lp.H) string {
 	return "echo ok"
 }
 
+// burst: application traffic must not cost a live connection: n chunks arrive on a downstream nobody reads while the broker
+// answers every ping at once; the connection must survive the next keepalive rounds
+func burst(h *lp.H, n int) string {
+	b := broker.New()
+	b.Register()
+	disc := make(chan struct{}, 4)
+	I, T := 100, 160
+	conn, err := iscp.Connect("mem", broker.TransportName, iscp.WithConnPingInterval(time.Duration(I)*time.Millisecond), iscp.WithConnPingTimeout(time.Duration(T)*time.Millisecond),
+		iscp.WithConnDisconnectedEventHandler(iscp.DisconnectedEventHandlerFunc(func(*iscp.DisconnectedEvent) { disc <- struct{}{} })))
+	if err != nil {
+		return "err connect"
+	}
+	defer func() {
+		ctx, cancel := context.WithTimeout(context.Background(), 300*time.Millisecond)
+		conn.Close(ctx)
+		cancel()
+	}()
+	ctx, cancel := context.WithTimeout(context.Background(), 2*time.Second)
+	defer cancel()
+	if _, err := conn.OpenDownstream(ctx, []*message.DownstreamFilter{{SourceNodeID: "n0", DataFilters: []*message.DataFilter{{Name: "#", Type: "#"}}}}); err != nil {
+		return "err open"
+	}
+	var alias uint32 = 1
+	for _, r := range b.LogFrom(0) {
+		if o, ok := r.Msg.(*message.DownstreamOpenRequest); ok {
+			alias = o.DesiredStreamIDAlias
+		}
+	}
+	up := &message.UpstreamInfo{SessionID: "s", SourceNodeID: "n0"}
+	up.StreamID[0] = 7
+	sent := make(chan struct{})
+	go func() {
+		defer close(sent)
+		for k := 0; k < n; k++ {
+			b.Cur().Send(&message.DownstreamChunk{StreamIDAlias: alias, UpstreamOrAlias: up, StreamChunk: &message.StreamChunk{SequenceNumber: uint32(k + 1), DataPointGroups: []*message.DataPointGroup{}}, ExtensionFields: &message.DownstreamChunkExtensionFields{}})
+		}
+	}()
+	select {
+	case <-sent:
+	case <-disc:
+		h.Violate(fmt.Sprintf("the client gave up a live connection while %d unread chunks were arriving (the broker answers every ping at once)", n))
+		return "closed"
+	case <-time.After(5 * time.Second):
+		h.Violate(fmt.Sprintf("the client stopped reading from the connection while %d unread chunks were arriving", n))
+		return "stuck"
+	}
+	select {
+	case <-disc:
+		h.Violate(fmt.Sprintf("the client gave up a live connection after a burst of %d unread chunks (the broker answers every ping at once)", n))
+		return "closed"
+	case <-time.After(time.Duration(4*(I+T)) * time.Millisecond):
+	}
+	return "alive"
+}
+
+// wireBurst: the same at the wire level, where a subscriber that does not drain its channel is possible: n chunks for a
+// subscribed alias nobody reads, pings answered at once; the connection must not be given up
+func wireBurst(h *lp.H, n int) string {
+	cli, srv := transport.Pipe()
+	enc := protobuf.NewEncoding()
+	ct := encoding.NewTransport(&encoding.TransportConfig{Transport: cli, Encoding: enc})
+	st := encoding.NewTransport(&encoding.TransportConfig{Transport: srv, Encoding: enc})
+	I, T := 100, 160
+	var wmu sync.Mutex
+	write := func(m message.Message) { wmu.Lock(); st.Write(m); wmu.Unlock() }
+	answered := make(chan struct{}, 4096)
+	go func() {
+		for {
+			m, err := st.Read()
+			if err != nil {
+				return
+			}
+			switch v := m.(type) {
+			case *message.ConnectRequest:
+				go write(&message.ConnectResponse{RequestID: v.RequestID, ResultCode: message.ResultCodeSucceeded})
+			case *message.Ping:
+				go func() { write(&message.Pong{RequestID: v.RequestID}); answered <- struct{}{} }()
+			}
+		}
+	}()
+	conn, err := wire.Connect(&wire.ClientConnConfig{Transport: ct, PingInterval: time.Duration(I) * time.Millisecond, PingTimeout: time.Duration(T) * time.Millisecond})
+	if err != nil {
+		return "err connect"
+	}
+	defer func() { conn.Close(); srv.Close() }()
+	ctx, cancel := context.WithTimeout(context.Background(), time.Second)
+	defer cancel()
+	if _, err := conn.SubscribeDownstreamChunk(ctx, 5, message.QoSReliable); err != nil {
+		return "err subscribe"
+	}
+	up := &message.UpstreamInfo{SessionID: "s", SourceNodeID: "n0"}
+	sent := make(chan struct{})
+	go func() {
+		defer close(sent)
+		for k := 0; k < n; k++ {
+			write(&message.DownstreamChunk{StreamIDAlias: 5, UpstreamOrAlias: up, StreamChunk: &message.StreamChunk{SequenceNumber: uint32(k + 1), DataPointGroups: []*message.DataPointGroup{}}, ExtensionFields: &message.DownstreamChunkExtensionFields{}})
+		}
+	}()
+	deadline := time.After(time.Duration(5*(I+T))*time.Millisecond + 2*time.Second)
+	burstDone := false
+	var quiet <-chan time.Time
+	for {
+		select {
+		case <-sent:
+			sent = nil
+			burstDone = true
+			quiet = time.After(time.Duration(4*(I+T)) * time.Millisecond)
+		case <-conn.Closed():
+			h.Violate(fmt.Sprintf("wire level: the client gave up a live connection around a burst of %d chunks its subscriber does not read (every ping was answered at once; burst delivered: %v)", n, burstDone))
+			return "closed"
+		case <-quiet:
+			return "alive"
+		case <-deadline:
+			if !burstDone {
+				h.Violate(fmt.Sprintf("wire level: the client stopped reading while %d chunks for an undrained subscriber were arriving", n))
+				return "stuck"
+			}
+			return "alive"
+		}
+	}
+}
+
+// pingBurst: n pings from the broker while it is momentarily not reading; every one must be answered with its id
+func pingBurst(h *lp.H, n int) string {
+	b := broker.New()
+	gate := make(chan struct{})
+	var gateOn bool
+	var gmu sync.Mutex
+	b.Policy = func(inc *broker.Inc, m message.Message) bool {
+		gmu.Lock()
+		on := gateOn
+		gmu.Unlock()
+		if on {
+			<-gate
+		}
+		return false
+	}
+	b.Register()
+	conn, err := iscp.Connect("mem", broker.TransportName, iscp.WithConnPingInterval(time.Hour), iscp.WithConnPingTimeout(time.Hour))
+	if err != nil {
+		return "err"
+	}
+	defer func() {
+		ctx, cancel := context.WithTimeout(context.Background(), 300*time.Millisecond)
+		conn.Close(ctx)
+		cancel()
+	}()
+	gmu.Lock()
+	gateOn = true
+	gmu.Unlock()
+	go func() {
+		for k := 0; k < n; k++ {
+			b.Cur().Send(&message.Ping{RequestID: message.RequestID(5001 + 2*k)})
+		}
+	}()
+	time.Sleep(300 * time.Millisecond)
+	gmu.Lock()
+	gateOn = false
+	gmu.Unlock()
+	close(gate)
+	countIn := func(recs []broker.Rec) int {
+		seen := map[uint32]bool{}
+		for _, r := range recs {
+			if p, ok := r.Msg.(*message.Pong); ok && uint32(p.RequestID) >= 5001 {
+				seen[uint32(p.RequestID)] = true
+			}
+		}
+		return len(seen)
+	}
+	b.WaitFor(func() bool { return countIn(b.Log) == n }, 2*time.Second) // WaitFor holds the broker's lock
+	count := func() int { return countIn(b.LogFrom(0)) }
+	if got := count(); got != n {
+		h.Violate(fmt.Sprintf("the broker sent %d pings while it was not reading for 300 ms; only %d were answered with a pong of the same id", n, got))
+	}
+	return fmt.Sprintf("echo %d", count())
+}
+
 func main() {
 	h := lp.New()
 	defer h.Finish()
@@ -230,6 +411,15 @@ func main() {
 			out = announce(h, ms)
 		case "echo":
 			out = pongEcho(h)
+		case "burst":
+			k, _ := strconv.Atoi(w[1])
+			out = burst(h, k)
+		case "wireburst":
+			k, _ := strconv.Atoi(w[1])
+			out = wireBurst(h, k)
+		case "pingburst":
+			k, _ := strconv.Atoi(w[1])
+			out = pingBurst(h, k)
 		}
 		h.Op(op, out)
 		return out
@@ -299,4 +489,13 @@ func main() {
 	h.Case("pong echo")
 	do("echo")
 	h.Distinct("echo")
+	h.Case("chunk burst")
+	do("burst 3000")
+	h.Distinct("burst")
+	h.Case("chunk burst, wire level")
+	do("wireburst 1100")
+	h.Distinct("wireburst")
+	h.Case("ping burst")
+	do("pingburst 14")
+	h.Distinct("pingburst")
 }
